@@ -176,6 +176,19 @@ func (dec *Decoder) decodeWithPool(data []byte) (*DecodeResult, error) {
 	return res, nil
 }
 
+// decodeNested is decodeWithPool for the bytes of a nested message field, where an empty
+// message is valid data: it yields an empty (pooled) result instead of a nil one.
+func (dec *Decoder) decodeNested(data []byte) (*DecodeResult, error) {
+	if len(data) > 0 {
+		return dec.decodeWithPool(data)
+	}
+	res, ok := dec.pool.Get().(*DecodeResult)
+	if !ok {
+		return nil, fmt.Errorf("invalid decoder")
+	}
+	return res, nil
+}
+
 // newBaseResult creates a new DecodeResult object based on the given definition
 // all other initialization of this DecodeResult is done by cloning the resulting object
 func (dec *Decoder) newBaseResult(def Def) (*DecodeResult, error) {
